@@ -160,7 +160,7 @@ def h_battery(ctx):
     for k, spec in enumerate(cfg.get('fields', [])):
         pos, size = _field_pos(cls, where, tuple(spec))
         v = ctx.uint('f%d' % k, 8 * size)
-        rng = cfg.get('range')
+        rng = cfg.get('range') if tuple(spec)[2] in OFFSET_FIELDS else None
         if rng == 'beyond':
             ctx.assume(v > len(data))             # every value that designates a place beyond the end of the file
         elif rng == 'inside':
@@ -254,8 +254,9 @@ def _battery_instances(tier):
                 out.append(dict(elfclass=cls, little=little, fields=[list(f)]))
         pairs = [(('EHDR', 0, 'e_shnum'), ('SHDR', 0, 'sh_size')), (('EHDR', 0, 'e_shoff'), ('EHDR', 0, 'e_shentsize')), (('SHDR', 2, 'sh_size'), ('SHDR', 2, 'sh_entsize')),
                  (('PHDR', 2, 'p_offset'), ('PHDR', 2, 'p_filesz')), (('WORD', 0, 'note'), ('WORD', 1, 'note')), (('EHDR', 0, 'e_phnum'), ('SHDR', 0, 'sh_info')), (('SHDR', 7, 'sh_flags'), ('SHDR', 7, 'sh_offset'))]
-        for a, b in pairs if tier == 'thorough' else [pairs[0], pairs[2], pairs[6]]:
+        for a, b in pairs if tier == 'thorough' else [pairs[0], pairs[2]]:
             out.append(dict(elfclass=cls, little=little, fields=[list(a), list(b)]))
+        out.append(dict(elfclass=cls, little=little, fields=[list(pairs[6][0]), list(pairs[6][1])], range='beyond'))
         data, where = _seed(cls, little)
         cuts = sorted({0, 1, 16, 51, 52, 63, 64, where['phoff'], where['phoff'] + 1, where['shoff'] - 1, where['shoff'], where['shoff'] + where['shent'], where['dyn'] + 4, where['note'] + 13,
                        len(data) - 1})
